@@ -359,6 +359,41 @@ FAMILIES.update({
                             invariants=tlc.GEN_INVARIANTS, simulate=dict(num=300, depth=9)) for t in ('quick', 'thorough')},
 })
 
+# Edit histories: a built model is observed, edited IN PLACE through public attributes (cardinality, add / remove a
+# child, abstract flag, attribute value, remove a constraint, root operator of a constraint, rename), and observed again
+# by the same objects.  Cases are the states after >= 1 edit; `base` is the model before the first edit.
+EDIT_KINDS = {'card', 'addchild', 'rmkid', 'abs', 'rmctc', 'ctcop', 'rename'}
+
+
+def edit_families(prefix, fmt='', ops=frozenset({'IMPLIES', 'OR', 'EXCLUDES', 'AND'}), abstract=True, attrs=None, star=False,
+                  q=(900, 150), t=(8000, 2000)):
+    kinds = set(EDIT_KINDS) - (set() if abstract else {'abs'})
+    axes = {'ctc'} | ({'abs'} if abstract else set())
+    walk = dict(N=6, MaxKids=3, MinHi=0, AllowStar=star, Axes=axes | ({'attr'} if attrs else set()), AttrNames=['a1'],
+                AttrVals=attrs or set(), MaxCtc=2, CtcDepth=1, CtcBinOps=set(ops), CtcMinFeatures=3, CtcGrow=1,
+                MaxEdits=3, EditKinds=kinds | ({'attrval'} if attrs else set()), Fmt=fmt)
+    one = dict(N=3, MaxKids=2, MinHi=0, AllowStar=False, Axes={'ctc'}, MaxCtc=1, CtcDepth=1, CtcBinOps=set(ops), CtcMinFeatures=2,
+               MaxEdits=1, EditKinds=kinds - {'abs'}, Fmt=fmt)
+    return {
+        prefix + 'Edit1': {    # exhaustive: every single edit of every small model
+            'quick':    dict(consts=one, invariants=tlc.GEN_INVARIANTS, cap=q[0]),
+            'thorough': dict(consts=dict(one, N=4), invariants=tlc.GEN_INVARIANTS, cap=t[0]),
+        },
+        prefix + 'EditWalk': {  # seeded walks: larger models, up to three edits
+            'quick':    dict(consts=walk, invariants=tlc.GEN_INVARIANTS, simulate=dict(num=q[1], depth=16), cap=q[0]),
+            'thorough': dict(consts=dict(walk, N=7), invariants=tlc.GEN_INVARIANTS, simulate=dict(num=t[1], depth=18), cap=t[0]),
+        },
+    }
+
+
+FAMILIES.update(edit_families('', ops=LOGIC_BIN))
+FAMILIES.update(edit_families('json-', 'json', LOGIC_BIN, attrs=ATTR_VALS_JSON[:7], star=True, q=(500, 100)))
+FAMILIES.update(edit_families('uvl-', 'uvl', ALL_OPS_NOT_XOR, attrs=ATTR_VALS_UVL[:8], star=True, q=(300, 80), t=(2500, 800)))
+FAMILIES.update(edit_families('afm-', 'afm', ALL_OPS_NOT_XOR, abstract=False, q=(500, 100)))
+FAMILIES.update(edit_families('fide-', 'fide', ALL_OPS_NOT_XOR, q=(500, 100)))
+FAMILIES.update(edit_families('glencoe-', 'glencoe', LOGIC_BIN, abstract=False, q=(500, 100)))
+FAMILIES.update(edit_families('C12-', ops=LOGIC_BIN, q=(60, 40), t=(400, 200)))
+
 # Cross-format chains (x-<a>-<b>-*): models inside BOTH fragments; the harness writes and reads them
 # with format a, and the model reader a built is then the source of the write/read history of format b.
 RT_OPS = {'uvl': ALL_OPS_NOT_XOR, 'json': LOGIC_BIN, 'afm': ALL_OPS_NOT_XOR, 'fide': ALL_OPS_NOT_XOR, 'glencoe': LOGIC_BIN}
@@ -415,5 +450,7 @@ def generate(fam, tier, seed, workdir):
                                   emit_all=spec.get('emit_all', True))
     if spec.get('walks'):
         st['simulate'] = {'random_walks': spec['walks']}
+    if spec['consts'].get('MaxEdits'):      # edit histories: the cases are the states after at least one edit
+        cases = [c for c in cases if 'base' in c]
     _cache[key] = (cases, st)
     return cases, st
